@@ -334,7 +334,12 @@ theorem inv_closeEv {s : St} (h : Inv s) : Inv (closeEv s).1 := by
   · exact (inv_cancelConn h).of_same (same_beginJoin _)
 
 theorem inv_finishClose {s : St} (h : Inv s) (t0 : Nat) : Inv (finishClose s t0).1 :=
-  h.of_same ⟨rfl, rfl, rfl, rfl, rfl, Nat.le_refl _, rfl⟩
+  (inv_cancelConn h).of_same ⟨rfl, rfl, rfl, rfl, rfl, Nat.le_refl _, rfl⟩
+
+theorem same_versionsGo (s : St) : SameCore s (versionsGo s).1 := by
+  unfold versionsGo; split
+  · exact ⟨rfl, rfl, rfl, rfl, rfl, Nat.le_refl _, rfl⟩
+  · exact SameCore.refl s
 
 
 theorem inv_of_fresh {s : St} (h : Fresh s) : Inv s := by
@@ -347,7 +352,8 @@ theorem inv_shutdownTail {s : St} (hp : s.producers = 0) (hl : s.lostPending = f
   simp only [shutdownTail]
   split
   · exact inv_of_fresh ⟨hf.disc, hf.prod, hf.lp, hf.mid, hf.cons_le⟩
-  · exact inv_of_fresh ⟨hf.disc, hf.prod, hf.lp, hf.mid, hf.cons_le⟩
+  · exact inv_finishClose (s := { (closeWriter { s with connected := false }).1 with writer := none })
+      (inv_of_fresh ⟨hf.disc, hf.prod, hf.lp, hf.mid, hf.cons_le⟩) t0
 
 theorem inv_shutdownRun {s : St} (h : Inv s) : Inv (shutdownRun s).1 := by
   unfold shutdownRun
@@ -423,15 +429,18 @@ theorem inv_fire {s : St} (h : Inv s) (k : Timer) : Inv (fire s k).1 := by
       | cwcloseTO =>
         simp only []
         split
-        · exact h.of_same ⟨rfl, rfl, rfl, rfl, rfl, Nat.le_refl _, rfl⟩
+        · exact inv_finishClose (s := { s with writer := none }) (h.of_same ⟨rfl, rfl, rfl, rfl, rfl, Nat.le_refl _, rfl⟩) _
         · exact h
 
 
 theorem inv_step {s : St} (h : Inv s) (e : Ev) : Inv (step s e).1 := by
-  unfold step
+  unfold step stepDone stepLive
   split
-  · split <;> first | exact h | exact h.of_same ⟨rfl, rfl, rfl, rfl, rfl, Nat.le_refl _, rfl⟩
+  · split <;> first | exact h | exact h.of_same ⟨rfl, rfl, rfl, rfl, rfl, Nat.le_refl _, rfl⟩ |
+      (unfold reopenEv; split <;> first | exact h | exact h.of_same ⟨rfl, rfl, rfl, rfl, rfl, Nat.le_refl _, rfl⟩)
   · cases e with
+    | reopen => exact h
+    | versionsGo => exact h.of_same (same_versionsGo s)
     | connect =>
       simp only []
       split
@@ -620,6 +629,9 @@ theorem samew_fireSetup (s : St) (a : Nat) : SameW s (fireSetup s a).1 := by
 theorem samew_setupGo (s : St) : SameW s (setupGo s).1 := by
   unfold setupGo; split <;> exact ⟨rfl, rfl, rfl, rfl, id⟩
 
+theorem samew_versionsGo (s : St) : SameW s (versionsGo s).1 := by
+  unfold versionsGo; split <;> exact ⟨rfl, rfl, rfl, rfl, id⟩
+
 theorem samew_park (s : St) (t : Target) : SameW s (park s t) := by
   cases t <;> exact ⟨rfl, rfl, rfl, rfl, id⟩
 
@@ -655,10 +667,19 @@ theorem winv_step {s : St} (hi : Inv s) (h : WInv s) (e : Ev) : WInv (step s e).
     · cases hm : s.lostMid
       · rfl
       · exact absurd (hi.mid_recon hm) hr
-  unfold step
+  unfold step stepDone stepLive
   split
-  · split <;> first | exact h | exact h.of_same ⟨rfl, rfl, rfl, rfl, id⟩
+  · split
+    · exact h.of_same ⟨rfl, rfl, rfl, rfl, id⟩
+    · unfold reopenEv; split
+      · exact h
+      · rename_i hg
+        simp only [not_or, Decidable.not_not, Bool.not_eq_true] at hg
+        exact winv_of_down hg.1 hg.2.1
+    · exact h
   · cases e with
+    | reopen => exact h
+    | versionsGo => exact h.of_same (samew_versionsGo s)
     | connect =>
       simp only []
       split
@@ -875,6 +896,9 @@ theorem quiet_handle (s : St) (f : Feed) : Quiet (handle s f).2 := by
   | sensors m t =>
     simp only [handle, ensureDev]
     split <;> simp [Quiet, nFault, nWclose, nOpen, nAnnFalse, List.countP_cons, isFault, isWclose, isOpenCall, isAnnFalse]
+  | versions vs =>
+    simp only [handle, ensureDev]
+    split <;> simp [Quiet, nFault, nWclose, nOpen, nAnnFalse, List.countP_cons, isFault, isWclose, isOpenCall, isAnnFalse]
 
 theorem quiet_put (a k : Nat) : Quiet [Out.put a k] := by
   simp [Quiet, nFault, nWclose, nOpen, nAnnFalse, List.countP_cons, isFault, isWclose, isOpenCall, isAnnFalse]
@@ -968,6 +992,9 @@ theorem samep_fireSetup (s : St) (a : Nat) : SameP s (fireSetup s a).1 := by
 theorem samep_setupGo (s : St) : SameP s (setupGo s).1 := by
   unfold setupGo; split <;> exact ⟨rfl, rfl, rfl⟩
 
+theorem samep_versionsGo (s : St) : SameP s (versionsGo s).1 := by
+  unfold versionsGo; split <;> exact ⟨rfl, rfl, rfl⟩
+
 theorem samep_park (s : St) (t : Target) : SameP s (park s t) := by
   cases t <;> exact ⟨rfl, rfl, rfl⟩
 
@@ -1007,6 +1034,9 @@ theorem quiet_fireSetup (s : St) (a : Nat) : Quiet (fireSetup s a).2 := by
 
 theorem quiet_setupGo (s : St) : Quiet (setupGo s).2 := by
   unfold setupGo; split <;> exact quiet_nil
+
+theorem quiet_versionsGo (s : St) : Quiet (versionsGo s).2 := by
+  unfold versionsGo; split <;> exact quiet_nil
 
 theorem quiet_doOpen_fw (s : St) (o : Owner) : nFault (doOpen s o).2 = 0 ∧ nWclose (doOpen s o).2 = 0 :=
   ⟨(doOpen_counts s o).2.1, (doOpen_counts s o).2.2.1⟩
@@ -1062,7 +1092,7 @@ theorem step_balance {s : St} (hi : Inv s) (hw : WInv s) (hcl : s.closing = .no)
     · rfl
     · simp [hl] at h1; omega
   have hnd : isDone s.closing = false := by rw [hcl]; rfl
-  unfold step
+  unfold step stepDone stepLive
   rw [hnd]
   simp only [Bool.false_eq_true, ↓reduceIte]
   cases e with
@@ -1197,6 +1227,8 @@ theorem step_balance {s : St} (hi : Inv s) (hw : WInv s) (hcl : s.closing = .no)
       · exact f4
   | shutdownRun => simp only [shutdownRun, hcl]; exact bal_refl s
   | setupGo => exact bal_of_samep (samep_setupGo s) (quiet_setupGo s)
+  | versionsGo => exact bal_of_samep (samep_versionsGo s) (quiet_versionsGo s)
+  | reopen => exact bal_refl s
   | gate a => exact bal_of_samep (frames_gateEv s a).samep quiet_nil
   | release => exact bal_of_samep (frames_release s).samep (quiet_release s)
   | take => exact bal_of_samep (frames_take s).samep (quiet_take s)
@@ -1239,6 +1271,11 @@ theorem addrs_handle (s : St) (f : Feed) : addrs s <+: addrs (handle s f).1 := b
     · exact ensureDev_prefix _ _
     · intro d; rfl
   | sensors m t =>
+    show s.devices.map Dev.addr <+: (updDev (ensureDev s.devices ecomaxAddr).1 ecomaxAddr _).map Dev.addr
+    rw [map_addr_updDev]
+    · exact ensureDev_prefix _ _
+    · intro d; rfl
+  | versions vs =>
     show s.devices.map Dev.addr <+: (updDev (ensureDev s.devices ecomaxAddr).1 ecomaxAddr _).map Dev.addr
     rw [map_addr_updDev]
     · exact ensureDev_prefix _ _
@@ -1299,6 +1336,11 @@ theorem sa_fireSetup (s : St) (a : Nat) : SameAddrs s (fireSetup s a).1 := by
 theorem sa_setupGo (s : St) : SameAddrs s (setupGo s).1 := by
   unfold setupGo; split
   · exact map_addr_map _ _ (fun d => by split <;> rfl)
+  · rfl
+
+theorem sa_versionsGo (s : St) : SameAddrs s (versionsGo s).1 := by
+  unfold versionsGo; split
+  · exact map_addr_map _ _ (fun d => rfl)
   · rfl
 
 theorem sa_park (s : St) (t : Target) : SameAddrs s (park s t) := by
@@ -1416,10 +1458,12 @@ theorem addrs_fire (s : St) (k : Timer) : addrs s <+: addrs (fire s k).1 := by
 /-- **the device map is never rebuilt**: every micro event keeps the known devices, in order;
 new ones are only appended -/
 theorem addrs_step (s : St) (e : Ev) : addrs s <+: addrs (step s e).1 := by
-  unfold step
+  unfold step stepDone stepLive
   split
-  · split <;> exact List.prefix_refl _
+  · split <;> first | exact List.prefix_refl _ | (unfold reopenEv; split <;> exact List.prefix_refl _)
   · cases e with
+    | reopen => exact List.prefix_refl _
+    | versionsGo => exact (sa_versionsGo s).prefix
     | connect => simp only []; split <;> first | exact List.prefix_refl _ | exact (sa_doOpen s _).prefix
     | feed f =>
       simp only [feed]
@@ -1506,10 +1550,12 @@ theorem calm_step (s : St) (e : Ev)
     (h : e ≠ .connect ∧ e ≠ .lostRun ∧ e ≠ .lostRun2 ∧ e ≠ .shutdownRun ∧ e ≠ .tick .wcloseTO ∧ e ≠ .tick .backoffEnd) :
     Calm (step s e).2 := by
   obtain ⟨h1, h2, h3, h4, h5, h6⟩ := h
-  unfold step
+  unfold step stepDone stepLive
   split
-  · split <;> exact calm_nil
+  · split <;> first | exact calm_nil | (unfold reopenEv; split <;> exact calm_nil)
   · cases e with
+    | reopen => exact calm_nil
+    | versionsGo => exact (quiet_versionsGo s).calm
     | connect => exact absurd rfl h1
     | feed f => exact calm_feed s f
     | readFault => simp only []; split <;> first | exact calm_prodFault s | exact calm_nil
@@ -1551,5 +1597,27 @@ theorem calm_step (s : St) (e : Ev)
     | gate a => exact calm_nil
     | release => exact (quiet_release s).calm
     | take => exact (quiet_take s).calm
+
+/-! ### close() returning, and the object used again -/
+
+theorem finishClose_fst (s : St) (t0 : Nat) :
+    (finishClose s t0).1 =
+      { s with recon := (cancelConn s).recon, devices := s.devices.map shutDev, closing := .done t0 s.now } := by
+  unfold finishClose cancelConn; split <;> rfl
+
+theorem finishClose_snd (s : St) (t0 : Nat) : (finishClose s t0).2 = [.closed] := rfl
+
+theorem reopenEv_snd (s : St) : (reopenEv s).2 = [] := by unfold reopenEv; split <;> rfl
+
+theorem frames_reopenEv_but_closing (s : St) :
+    (reopenEv s).1 = s ∨ (reopenEv s).1 = { s with closing := .no, rj := false } := by
+  unfold reopenEv; split
+  · left; rfl
+  · right; rfl
+
+theorem same_reopenEv (s : St) : SameCore s (reopenEv s).1 := by
+  unfold reopenEv; split <;> exact ⟨rfl, rfl, rfl, rfl, rfl, Nat.le_refl _, rfl⟩
+
+theorem sa_reopenEv (s : St) : SameAddrs s (reopenEv s).1 := by unfold reopenEv; split <;> rfl
 
 end PlumVerif.Conn
